@@ -6,8 +6,9 @@ pattern: {'src': [bool...], 'tgt': [bool...]}  (node present or absent; absent n
 
 A connection set for a pattern is an integer matrix M (|src| x |tgt|) with 0 <= M[i][j] <= cap[i][j], whose row sums are
 allowed degrees of the source nodes and column sums allowed degrees of the target nodes (absent: exactly 0), where
-cap[i][j] = 0 for excluded pairs, 1 if either end forbids repeated connections, otherwise the largest degree both ends
-can take. Generators keep open-ended nodes non-repeating, so the cap never depends on an undocumented parallel limit."""
+cap[i][j] = 0 for excluded pairs, 1 if either end forbids repeated connections, otherwise the smallest of the parallel
+limit (spec['max_par'], or the documented default when it is None - see parallel_limit) and the largest degree either
+end can take."""
 import itertools
 
 
@@ -29,10 +30,27 @@ def max_deg(node, present, other_n):
     return None  # open-ended
 
 
+def parallel_limit(spec, pattern):
+    """The largest number of parallel connections between two nodes that both allow repeated connections: the settings'
+    explicit `max_par` (at least 1) or, when unset, the documented default "at least 2, and enough for every bounded
+    node to reach its largest degree" - taken over the nodes present in the pattern (the library derives the default
+    from the effective settings of the pattern)."""
+    mp = spec.get('max_par')
+    if mp is not None:
+        return max(1, mp)
+    n = 2
+    for side in ('src', 'tgt'):
+        for k, node in enumerate(spec[side]):
+            if pattern[side][k] and 'conns' in node:
+                n = max(n, max(node['conns']))
+    return n
+
+
 def caps(spec, pattern):
     ns, nt = len(spec['src']), len(spec['tgt'])
     ex = {tuple(e) for e in spec.get('excluded', [])}
     cap = [[0] * nt for _ in range(ns)]
+    n_par = parallel_limit(spec, pattern)
     for i, s in enumerate(spec['src']):
         for j, t in enumerate(spec['tgt']):
             if (i, j) in ex or not pattern['src'][i] or not pattern['tgt'][j]:
@@ -41,8 +59,7 @@ def caps(spec, pattern):
                 cap[i][j] = 1
                 continue
             ms, mt = max_deg(s, True, nt), max_deg(t, True, ns)
-            assert ms is not None and mt is not None, 'generator must keep open-ended nodes non-repeating'
-            cap[i][j] = min(ms, mt)
+            cap[i][j] = min([n_par] + [m for m in (ms, mt) if m is not None])
     return cap
 
 
